@@ -53,7 +53,8 @@ vars == <<phase, prod, reg, dflt, rs>>
 Init == phase = 0 /\ prod = <<>> /\ reg = {} /\ dflt = "" /\ rs = <<>>
 Next == \/ /\ phase = 0 /\ phase' = 1
            /\ reg' \in {Builtin, AllReg}
-           /\ prod' \in {p \in ProdSeqs : SeqToSet(p) \subseteq reg'}
+           \* at least one entry has a registered writer (the others need not)
+           /\ prod' \in {p \in ProdSeqs : SeqToSet(p) \cap reg' # {}}
            /\ dflt' \in Defaults
            /\ rs' \in RangeSeqs
         \/ phase = 1 /\ phase' = 2 /\ UNCHANGED <<prod, reg, dflt, rs>>
@@ -65,14 +66,18 @@ Check ==
         best  == BestSet(prod, reg, canon)
     IN \* membership
        /\ best \subseteq SeqToSet(prod) \cap reg
-       \* a request admissible on Accept grounds always has a representation
-       /\ AcceptMust(prod, canon) => best # {}
+       \* a request admissible on Accept grounds - by an entry that has a writer - always has a representation
+       /\ AcceptMust(SelectSeq(prod, LAMBDA p : p \in reg), canon) => best # {}
        \* optional whitespace and extra parameters do not change the allowed choice
        /\ \A st \in Styles : BestSet(prod, reg, Render(rs, st)) = best
-       \* Layer B inside Layer A (for requests the real router admits, no default type set)
-       /\ CheckRefinement /\ dflt = "" =>
+       \* Layer B inside Layer A (for requests the real router admits; whatever default type is set)
+       /\ CheckRefinement =>
             \A st \in Styles :
                MatchesAcceptG(prod, Render(rs, st)) /\ best # {} => ImplChoice(prod, reg, Render(rs, st), dflt) \subseteq best
+       \* ... and membership whatever the header looks like (also with a malformed q-value, which drops the range)
+       /\ CheckRefinement =>
+            \A hdr \in {Render(rs, st) : st \in Styles} \cup {Render(rs, 1) \o ";q=x", "*/*;q=x," \o Render(rs, 1)} :
+               ImplChoice(prod, reg, hdr, dflt) \subseteq SeqToSet(prod) \cap reg
        /\ PrintT("CASE " \o ToJson([produces |-> prod, registered |-> SetToSeq(reg), def |-> dflt,
                                      accs |-> [st \in Styles |-> Render(rs, st)]]))
 =============================================================================
